@@ -402,6 +402,7 @@ def term_definite_difference(a, b, depth=0):
             ea, eb = tr.tr(a), tr.tr(b)
             if sp.expand(ea - eb) != 0:
                 return f"index {sp.sstr(ea)} vs {sp.sstr(eb)}"
+            return None         # the same index written differently: not a difference at all
         except Exception:  # noqa
             pass
         if ka != kb:
